@@ -34,6 +34,35 @@ pub fn violation(class: &str, detail: String) -> ! {
     std::process::exit(EXIT_VIOLATION);
 }
 
+static DEFER_COUNTS: std::sync::atomic::AtomicBool = std::sync::atomic::AtomicBool::new(false);
+static DEFERRED: std::sync::Mutex<Option<(String, String)>> = std::sync::Mutex::new(None);
+
+/// Consequence probing: with deferral on, a disagreement between the reference count and the
+/// model's owners does not end the run; the first one is remembered and the run goes on, so that
+/// what the miscount *leads to* (an unwrap that hands out a shared value, mutable access while
+/// shared, an early free) is observed by the oracle of the operation that suffers it. The
+/// remembered violation is raised at the end of the run if nothing else fired.
+pub fn set_defer_counts(on: bool) {
+    DEFER_COUNTS.store(on, std::sync::atomic::Ordering::SeqCst);
+    let _nt = ledger::NoTrack::new();
+    *DEFERRED.lock().unwrap_or_else(|e| e.into_inner()) = None;
+}
+pub fn count_violation(class: &str, detail: String) {
+    if DEFER_COUNTS.load(std::sync::atomic::Ordering::SeqCst) {
+        let _nt = ledger::NoTrack::new();
+        let mut g = DEFERRED.lock().unwrap_or_else(|e| e.into_inner());
+        if g.is_none() {
+            *g = Some((class.to_string(), detail));
+        }
+        return;
+    }
+    violation(class, detail)
+}
+pub fn take_deferred() -> Option<(String, String)> {
+    let _nt = ledger::NoTrack::new();
+    DEFERRED.lock().unwrap_or_else(|e| e.into_inner()).take()
+}
+
 /// A defect of the harness itself (never reported as a property violation).
 pub fn harness_error(msg: &str) -> ! {
     let _nt = ledger::NoTrack::new();
